@@ -368,15 +368,14 @@ def OutForeign (c : StreamOutEndpoint.Config) (i : StreamOutEndpoint.In) : Prop 
 
 /-- **step_foreign_is_silent (stream OUT)**: no handshake is requested, the expected data toggle only
 moves by a halt-clear, and the FIFO sees no write, commit or discard (so the delivered stream is that of
-the consumer side alone); `transfer_active` and `overflow` keep their values. -/
+the consumer side alone).  (Stated on the ports and on the FIFO command only, so that it is independent of
+how the model's packet bookkeeping — `transfer_active`, `overflow` — is organised.) -/
 theorem out_step_foreign_is_silent (c : StreamOutEndpoint.Config) (s : StreamOutEndpoint.State)
     (i : StreamOutEndpoint.In) (h : OutForeign c i) :
     (StreamOutEndpoint.step c s i).2.ack = false ∧ (StreamOutEndpoint.step c s i).2.nak = false ∧
     (StreamOutEndpoint.step c s i).1.expectedToggle = (if i.clearHalt then false else s.expectedToggle) ∧
     (StreamOutEndpoint.fifoIn c s i).wen = false ∧ (StreamOutEndpoint.fifoIn c s i).wcommit = false ∧
-    (StreamOutEndpoint.fifoIn c s i).wdiscard = false ∧
-    (StreamOutEndpoint.step c s i).1.transferActive = s.transferActive ∧
-    (StreamOutEndpoint.step c s i).1.overflow = s.overflow := by
+    (StreamOutEndpoint.fifoIn c s i).wdiscard = false := by
   rcases h with h | ⟨h1, h2⟩
   · have : (i.tokEp == c.epNum) = false := by simpa using h
     simp [StreamOutEndpoint.step, StreamOutEndpoint.outOf, StreamOutEndpoint.comb, StreamOutEndpoint.fifoIn, this]
@@ -393,21 +392,23 @@ theorem out_ping_changes_nothing (c : StreamOutEndpoint.Config) (s : StreamOutEn
 /-- `USBSignalInEndpoint`: the token register does not show an IN token for this endpoint number. -/
 def SigForeign (c : SignalIn.Config) (i : SignalIn.In) : Prop := i.endpoint ≠ c.epNum ∨ i.isIn = false
 
-/-- **step_foreign_is_silent (status IN)**: a waiting endpoint (IDLE / RETRANSMIT) does not move at all
-and keeps `tx.valid` low; in no state does a transmission start; the toggle only moves on the host's ACK
-of the endpoint's own packet (WAIT_FOR_ACK). -/
+/-- **step_foreign_is_silent (status IN)**: a waiting endpoint (IDLE / RETRANSMIT) keeps its FSM state and
+`tx.valid` low; in no state does a transmission start; the toggle only moves on the host's ACK of the
+endpoint's own packet (WAIT_FOR_ACK) or by a halt-clear naming the endpoint. -/
 theorem sig_step_foreign_is_silent (c : SignalIn.Config) (s : SignalIn.State) (i : SignalIn.In)
     (h : SigForeign c i) :
-    ((s.fsm = .idle ∨ s.fsm = .retransmit) → (SignalIn.step c s i).1 = s ∧ (SignalIn.step c s i).2.valid = false) ∧
+    ((s.fsm = .idle ∨ s.fsm = .retransmit) →
+        (SignalIn.step c s i).1.fsm = s.fsm ∧ (SignalIn.step c s i).2.valid = false) ∧
     ((SignalIn.step c s i).2.valid = true → s.fsm = .transmit) ∧
     ((SignalIn.step c s i).1.fsm = .transmit → s.fsm = .transmit) ∧
-    ((SignalIn.step c s i).1.toggle ≠ s.toggle → s.fsm = .waitAck ∧ i.ack = true) := by
+    ((SignalIn.step c s i).1.toggle ≠ s.toggle → (s.fsm = .waitAck ∧ i.ack = true) ∨ i.clearHalt = true) := by
   have hp : SignalIn.packetRequested c i = false := by
     rcases h with h | h
     · simp [SignalIn.packetRequested, h]
     · simp [SignalIn.packetRequested, h]
   obtain ⟨fsm, latched, sent, toggle⟩ := s
-  cases fsm <;> simp [SignalIn.step, hp] <;> (repeat' split) <;> simp_all [SignalIn.ackTaken]
+  cases hc : i.clearHalt <;> cases fsm <;> simp [SignalIn.step, SignalIn.stepCore, hp, hc] <;>
+    (repeat' split) <;> simp_all [SignalIn.ackTaken]
 
 end PerCycle
 
@@ -597,7 +598,7 @@ theorem foreign_token_step (c : DevConfig) (ec : EpCfg) (s : DevState × EpState
     have hkind : ec.kind = .signalIn := by simpa [kindOk] using hk
     have h' : ¬(ep = ec.num ∧ pid = PID_IN) := by
       intro ⟨h1, h2⟩; simp [owns, dirIn, hkind, h1, h2] at hown
-    simp [epStep, settle, h']
+    simp [epStep, haltHits, settle, h']
 
 /-- The packets that follow a foreign token leave the slice exactly as it is. -/
 theorem foreign_followup_step (c : DevConfig) (ec : EpCfg) (t : DevState × EpState) (e : HostEvent)
@@ -626,7 +627,7 @@ theorem foreign_followup_step (c : DevConfig) (ec : EpCfg) (t : DevState × EpSt
     have hkind : ec.kind = .signalIn := by simpa [kindOk] using hk
     have h' : ¬(ctl.tokEp = ec.num ∧ ctl.tokPid = PID_IN) := by
       intro ⟨h1, h2⟩; simp [owns, dirIn, hkind, h1, h2] at hown
-    cases e <;> simp [isFollowUp] at he <;> simp [epStep, h']
+    cases e <;> simp [isFollowUp] at he <;> simp [epStep, haltHits, h']
 
 theorem foreign_followups (c : DevConfig) (ec : EpCfg) (t : DevState × EpState) (rest : List HostEvent)
     (hk : kindOk ec t.2 = true) (hep : t.1.tokEp ≠ 0) (hsd : t.1.sdWait = false)
@@ -677,7 +678,7 @@ theorem idle_step_settle (ec : EpCfg) (sh sh' : Shared) (st : EpState) (e : Host
       simp [epStep, settle, haltHits, hn, hh, hn', hh'] <;> split <;> simp
   | sig x =>
     cases e <;> simp [isIdleEvent] at he <;>
-      simp [epStep, settle, hn, hh, hn', hh'] <;> split <;> simp [sigNewToken] <;> (try (split <;> rfl))
+      simp [epStep, settle, haltHits, hn, hh, hn', hh'] <;> split <;> simp [sigNewToken] <;> (try (split <;> rfl))
 
 theorem core_idle (c : DevConfig) (s : DevState) (e : HostEvent) (he : isIdleEvent e = true) :
     core c s e = (s, .none) := by
